@@ -108,7 +108,12 @@ def gen_spec(rng, max_classes=7):
     ncls = rng.randint(1, max_classes)
     prop_names = set(rng.sample([n for n in MEMBER_NAMES if not n.startswith('__')], 2))
     classes = []
-    mod_idx = sorted(rng.randrange(len(modules)) for _ in range(ncls))
+    forced_rel = set()
+    if layout.startswith('deep'):
+        ncls = max(ncls, len(modules) + 1)          # every module of a nested package gets a class
+        mod_idx = sorted(list(range(len(modules))) + [rng.randrange(len(modules)) for _ in range(ncls - len(modules))])
+    else:
+        mod_idx = sorted(rng.randrange(len(modules)) for _ in range(ncls))
     for i in range(ncls):
         cid = NBUILTIN + i
         # ---- bases -----------------------------------------------------------------------------
@@ -141,6 +146,20 @@ def gen_spec(rng, max_classes=7):
             if in_domain_py(walk):
                 break
             bases = []
+        if layout == 'deep' and mod_idx[i] == 2 and mod_idx[i - 1] != 2 and rng.random() < 0.6:
+            # Impl(Mixin, Base): one base from the sibling module, one from the parent package's module
+            pairs = [(a['id'], b['id']) for a in classes if a['module'] == 1 for b in classes if b['module'] == 0
+                     if not set(ancestors(classes, a['id'])) & set(ancestors(classes, b['id']))
+                     and not {1, 2} <= set(ancestors(classes, a['id'])) | set(ancestors(classes, b['id']))
+                     and max(depth_of(classes, a['id']), depth_of(classes, b['id'])) < 4]
+            rng.shuffle(pairs)
+            for a, b in pairs:
+                cand = [a, b] if rng.random() < 0.5 else [b, a]
+                walk = [cid] + ancestors(classes, cand[0]) + ancestors(classes, cand[1])
+                if in_domain_py(walk):
+                    bases = cand
+                    forced_rel.update('%d:%d' % (2, x) for x in cand)
+                    break
         # ---- members ---------------------------------------------------------------------------
         members = []
         nmem = rng.choice([0, 1, 2, 2, 3, 3, 4, 5])
@@ -220,7 +239,10 @@ def gen_spec(rng, max_classes=7):
             if b >= NBUILTIN and classes[b - NBUILTIN]['module'] != c['module']:
                 key = '%d:%d' % (c['module'], b)
                 if key not in refs:
-                    refs[key] = rng.choice(import_forms(modules, c['module'], classes[b - NBUILTIN]['module']))
+                    forms = import_forms(modules, c['module'], classes[b - NBUILTIN]['module'])
+                    rel = [f for f in forms if f.startswith('rel_')]
+                    # inside a package relative imports are the usual way (and several levels meet in one file)
+                    refs[key] = rng.choice(rel) if rel and (key in forced_rel or rng.random() < 0.5) else rng.choice(forms)
     spec = {'modules': modules, 'classes': classes, 'refs': refs, 'reexport_star': rng.random() < 0.5,
             'desc_layout': rng.choice(['local', 'base_remote', 'all_remote']),
             'recursive_receiver': [mi for mi in range(len(modules)) if rng.random() < 0.25]}
@@ -251,8 +273,11 @@ def rebind_base_names(spec, rng):
             continue
         if is_reexported(modules[b['module']]) and is_reexported(modules[c['module']]):
             continue
-        if any(k['name'] == b['name'] and k['module'] == c['module'] for k in classes):
-            continue
+        if any(k['name'] == b['name'] and k is not b for k in classes):
+            continue                    # one class per borrowed name: `from pkg import C3`, makers ... stay unambiguous
+        reexp = [m for m in modules if is_reexported(m)]
+        if spec['reexport_star'] and is_reexported(modules[c['module']]) and modules[c['module']] != reexp[-1]:
+            continue                    # a later `from .subN import *` of pkg/__init__ could re-export the base under this name
         c['name'] = b['name']
 
 
@@ -1383,18 +1408,33 @@ def hist_spec(ctx, spec):
                               ('/' + a['wrap'] if a['wrap'] else ''))
     for f in spec['refs'].values():
         ctx.histogram('base_import_form', f)
+    for c in classes:
+        if any(str(m.get('ret', '')).startswith('self:') for m in c['members']):
+            ctx.histogram('round3_shapes', 'getter returns self.<a> + alias assignment')
+        if c['name'] != 'C%d' % c['id']:
+            ctx.histogram('round3_shapes', 'class rebinding the name of its base')
+    for _mi in spec.get('recursive_receiver', []):
+        ctx.histogram('round3_shapes', 'receiver of an attribute assignment computed recursively')
+    for mi, m in enumerate(spec['modules']):
+        lv = set()
+        for key, f in spec['refs'].items():
+            if int(key.split(':')[0]) == mi and f in ('rel_from', 'rel_mod'):
+                tgt = spec['modules'][classes[int(key.split(':')[1]) - NBUILTIN]['module']]
+                lv.add(len(relative_parts(package_of(m), tgt)[0]))
+        if len(lv) > 1:
+            ctx.histogram('round3_shapes', 'relative imports of different levels in one module')
 
 
 def run(ctx):
     proof_ok = ctx.coq_props()
     cov = ctx.coverage
     cov['rule'] = (
-        'hierarchies from the seeded generator (depth <= 4, <= 3 bases, <= 7 classes, builtin rows object/dict/Exception, '
+        'hierarchies (150 quick, 3000 thorough) from the seeded generator (depth <= 4, <= 3 bases, <= 7 classes, builtin rows object/dict/Exception, '
         'members: plain/property/descriptor/classmethod/staticmethod defs, int/str class variables, re-definitions, '
         'self-assignments in any self-method incl. nested blocks; 1-3 modules and/or a package with re-exports), filtered by '
         'Attrs.in_domain. One evaluation = one assist/location query of the real code or one class of the CPython oracle; '
         'non-trivial = a location query, or a class with at least one base or member.')
-    nh = ctx.pick(200, 3000)
+    nh = ctx.pick(150, 3000)
     jobs = []
     corpus = load_corpus()
     for fn, obj in corpus:
